@@ -256,4 +256,20 @@ Definition queue_keeps_guarantee (q : queue_spec) : bool :=
   end.
 Definition law_guarantee : bool := forallb queue_keeps_guarantee (sp_queues sp).
 
+(* 108: gang over the whole cycle (single-tier layouts in which gang votes for every action that ran, so
+   that every eviction went through its vote): a PodGroup that lost a pod to a committed eviction still has
+   at least minMember pods that are bound, binding, running, allocated or succeeded at the end *)
+Definition final_ready (t : task_spec) : bool :=
+  match final_of (ts_id t) with
+  | Some (st, _) => match st with Bound | Binding | Running | Allocated | Succeeded => true | _ => false end
+  | None => false
+  end.
+Definition job_keeps_min (jp : job_spec * Z) : bool :=
+  let j := fst jp in
+  let mine := filter (fun t => bool_decide (ts_job t = js_id j)) (sp_tasks sp) in
+  if existsb (fun t => bool_decide (ts_id t ∈ evicted_ids)) mine
+  then bool_decide (js_min j <= Z.of_nat (length (filter final_ready mine)))
+  else true.
+Definition law_gang_cycle : bool := forallb job_keeps_min (sp_jobs sp).
+
 End Laws.
